@@ -215,7 +215,10 @@ def checks(tier):
                         for B in ((1, 2) if (th and kind == "dense" and syn != "double") else (1,)):      # (double-exponential, batch 2, max 3*1.3: z3 unknown after 180 s)
                             ac = 3 if th else (2 if (delays in ("zero", "grid") or kind == "dense") else 0)
                             cfgs.append(dict(kind=kind, syn=syn, dt=dt, max=mmul * dt, delays=delays, B=B, bias=(kind == "dense"), T=(4 if th else 3), after_clear=ac))
-                            if kind == "conv" and delays != "zero" and (th or (syn in ("delta", "single") and dt == 1.3)):
+                            # (single-exponential with free real delays on the 2x2 kernel: one obligation sits at the edge of the 180 s query
+                            # time-out - decided in most runs, "unknown" in one - so it is explored with grid delays only)
+                            if kind == "conv" and delays != "zero" and dt == 1.3 and (syn == "delta" or (syn == "single" and delays == "grid")) or (
+                                    kind == "conv" and delays != "zero" and th and not (syn == "single" and delays == "any")):
                                 # a kernel with both sides > 1: the flattening order of the per-synapse delays matters
                                 cfgs.append(dict(kind=kind, syn=syn, dt=dt, max=mmul * dt, delays=delays, B=B, bias=False, T=(3 if th else 2), geom=(2, 3, 2, 2)))
                                 if syn == "delta" or th:
